@@ -182,7 +182,7 @@ func init() {
 		Technique: "deterministic simulation: complete choice-tree sweeps of seeded small recipes on the scripted random tape (hook-visible draw bounds), including levels reached after forced rejected candidates; exact law vs model string set",
 		Rule:      "case = one leaf (complete choice path of one Generate call) of a swept configuration; evaluations = leaves executed; distinct_nontrivial = distinct (configuration, level) sweeps completed whose string set has at least 2 members",
 		Assumptions: []string{"leaves of a sweep are weighted by prod 1/n_i, i.e. each bounded draw is uniform (C01, checked separately)", "sweeps are exhaustive per small configuration (|alphabet|^length within the leaf budget); configurations, orders and rejected prefixes are a seeded sample"},
-		Episodes:    map[string]int{"quick": 288, "thorough": 12000},
+		Episodes:    map[string]int{"quick": 1200, "thorough": 16000},
 		TwiceEvery:  6,
 		Real:        []string{"CharRecipe.Generate/Entropy/buildCharacterList/requireFilter/SuccessProbability", "golang-set", "randomUint32n"},
 		Simulated:   []string{"crypto/rand.Reader (choice tape driven through the probe table)", "alphabet index order (H2)"},
@@ -244,6 +244,9 @@ func runC02(c *Ctx, si interface{}) {
 		if sp := modelChar(s.Cfg).SpaceSize(); !sp.IsInt64() || sp.Int64() > int64(s.Budget)*4 {
 			c.Count("config_too_large", 1)
 			return
+		}
+		if s.Seed%2 == 0 {
+			warmSiblings(c, s.Seed, s.Cfg)
 		}
 		p := prepareChar(c, s.Cfg, rec, s.Seed)
 		if p.refuse != "" {
